@@ -15,13 +15,26 @@ def run(ctx):
                        emax=[30, 300][i % 2], dets=0, fluct=0, scale=[5, 20, 50][i % 3], order=orders[i % 2],
                        inflight=[0, 1, 3][i % 3], maxsteps=40000))
     tot, outs = coreloop.validate(ctx, cs, ["C02.", "DRIFTX"], nshards=8)
-    ctx.coverage.update({"states": st, "transitions": tr, "traces_validated_against_impl": tot["runs"],
+    # replay: TLC-simulated behaviours of the design model executed with scripted physics on the real Stepper
+    rcfgs = [("replay_none2", dict(NSlots=2, InitCap=3, Charge=False)), ("replay_charge2", dict(NSlots=2, InitCap=3, Charge=True)),
+             ("replay_none1", dict(NSlots=1, InitCap=2, Charge=False))]
+    if not q:
+        rcfgs += [("replay_none3", dict(NSlots=3, InitCap=4, Charge=False)), ("replay_charge3", dict(NSlots=3, InitCap=4, Charge=True)),
+                  ("replay_cap2", dict(NSlots=2, InitCap=2, Charge=False))]
+    rtot, rsamples = coreloop.replay(ctx, rcfgs, 40 if q else 800, ["C02.", "C01.", "C05.", "C16.", "C17."])
+    ctx.coverage.update({"states": st, "transitions": tr, "traces_validated_against_impl": tot["runs"] + rtot["runs"],
                          "samples": coreloop.sample_records(outs), "evaluations": tot["steps"],
                          "distinct_nontrivial": tot["tracks"],
                          "rule": "evaluations = track steps validated; distinct_nontrivial = distinct tracks (event, track id) "
                                  "created in the validated runs; design model states = CoreLoopMC (index arithmetic of the "
                                  "track-initialisation executors, refinement to the CoreLoop clauses, both track layouts)",
-                         "impl_stats": tot})
+                         "impl_stats": tot, "replay_stats": rtot, "replay_sample_script": rsamples[:1]})
+    if rtot.get("impl_drift_runs"):
+        vlib.log("DRIFT (informational): %d replayed behaviours differ from CoreLoopMC's predicted slot/queue maps: %s"
+                 % (rtot["impl_drift_runs"], rtot["impl_drift_samples"][:1]))
+    ctx.assumptions += ["replay: CoreLoopMC behaviours sampled by TLC -simulate (not the full set) are executed with scripted physics "
+                        "(public Process/Model API) through the real pre-step/select/InteractionApplier/cutoff/allocator/track-init code; "
+                        "the model's predicted slot and queue maps are compared after every Start/End (drift is informational)"]
     ctx.assumptions += ["small-scope: design model exhaustive for 2 (quick) / 2-3 (thorough) slots, <=2 secondaries per step, <=5 tracks, 3 iterations",
                         "conformance by trace validation of seeded real-physics runs (hand-built e-/e+/gamma problem), 1-64 slots, 8 track orders",
                         "Terminates: bounded by maxsteps in the harness (Hang event) and finiteness-by-construction in the model"]
